@@ -18,24 +18,48 @@ def index_through(callee):
     return None
 
 
+def mentions_cr(prog, b):
+    """the body (or one of its promoted constants) compares with / names the byte 13 and no other byte constant"""
+    ints = set()
+    bytestr = set()
+    for bb in [b] + [x for x in b.promoted if x is not None]:
+        for blk in bb.blocks:
+            if blk.term.k == 'switch':
+                ints |= set(v for v, _ in blk.term.targets if 9 <= v < 256)
+            ops = []
+            for st in blk.stmts:
+                if st.k == 'assign':
+                    ops += st.rv.ops
+            if blk.term.k == 'call':
+                ops += blk.term.args
+            for o in ops:
+                if o.is_const:
+                    bs = o.const_bytes()
+                    if bs is not None and len(bs) <= 2:
+                        bytestr.add(bytes(bs))
+                    elif o.const_int() is not None and 9 <= o.const_int() < 256 and 'u8' in (o.j.get('ty') or 'u8'):
+                        ints.add(o.const_int())
+    return (13 in ints or b'\r' in bytestr) and not (ints - {13}) and not (bytestr - {b'\r'})
+
+
 def trimmers(prog):
-    """the CR trimmer: a crate function &[u8] -> &[u8] built on slice::split_last whose match
-    compares the last byte with 13 (found by what it does, not by its name)"""
+    """the CR trimmer: a small crate function &[u8] -> &[u8] that returns its argument or a part of it and
+    mentions the byte CR and no other byte (found by what it does, not by its name or idiom: split_last +
+    match, strip_suffix(b"\r"), a slice pattern `[rest @ .., b'\r']` ...)"""
     out = []
     for b in prog.bodies.values():
-        if b.meta.get('kind') != 'Fn' and b.meta.get('kind') != 'AssocFn':
+        if b.meta.get('kind') not in ('Fn', 'AssocFn') or b.arg_count != 1 or len(b.blocks) > 16:
             continue
-        if not find_call(b, 'slice::split_last', 'core::slice::split_last'):
+        if not (is_u8_slice_ref(b.local_tys[0]) and is_u8_slice_ref(b.local_tys[1])):
             continue
-        has13 = any(t.k == 'switch' and any(v == 13 for v, _ in t.targets) for t in (blk.term for blk in b.blocks))
-        if has13 and b.local_tys[0].replace("'_ ", '').startswith('&') and '[u8]' in b.local_tys[0]:
+        if mentions_cr(prog, b):
             out.append(b)
     return out
 
 
 def trimmer_is_exact(b):
-    """returns the input minus one trailing CR, or the input: _0 roots are the parameter itself or
-    the `remaining` half of split_last(param)"""
+    """True: returns the input minus one trailing CR, or the input (split_last idiom, fully understood);
+    None: another idiom (strip_suffix, slice pattern): the result only depends on the argument - not judged further"""
     rs = roots_of(b, Place({'l': 0, 'p': []}))
     ok = True
     for r in rs:
@@ -48,11 +72,19 @@ def trimmer_is_exact(b):
                 if all(q[0] == 'arg' and q[1] == 1 for q in a):
                     continue
         ok = False
-    return ok and bool(rs)
+    if ok and bool(rs):
+        return True
+    deps = data_deps(b, Place({'l': 0, 'p': []}))
+    if deps and all(d[0] in ('const', 'call', 'bin', 'un', 'other', 'agg', 'discr') or (d[0] == 'arg' and d[1] == 1) for d in deps) and any(d[0] == 'arg' for d in deps):
+        return None
+    return False
 
 
 def is_u8_slice_ref(ty):
     return re.sub(r"'\w+ ", '', ty).replace(' ', '') in ('&[u8]',)
+
+
+GOOD_SITES = set()   # paths of the functions that hand out a CR-trimmed line (filled by TRIM-1, used by EPOS-3)
 
 
 def run(prog, R):
@@ -81,43 +113,58 @@ def run(prog, R):
         trimmer = None
     else:
         trimmer = T[0]
-        R.add('TRIM-1', trimmer, 'trimmer-removes-one-trailing-cr', trimmer_is_exact(trimmer), site(trimmer, trimmer.span['lo']),
-              'returns the input or the input without its last byte when that byte is CR')
+        ex = trimmer_is_exact(trimmer)
+        R.add('TRIM-1', trimmer, 'trimmer-removes-one-trailing-cr', ex is not False, site(trimmer, trimmer.span['lo']),
+              'returns the input or the input without its last byte when that byte is CR' if ex else 'returns a part of its argument chosen by a test for CR (idiom not analysed further)', undecided=ex is None)
 
     def is_trim_call(t):
         return t.callee is not None and trimmer is not None and prog.local_callee_body(t.callee) is trimmer
 
     # ---------------------------------------------------------------- TRIM-1
-    line_sites = []
+    # GOOD = functions whose returned byte slice is the trimmer's result, a constant, or the result of a GOOD
+    # function (fixpoint: accessors may go through any number of private helpers)
+    def ret_roots(b):
+        opt_ret = re.sub(r"'\w+ ", '', b.local_tys[0]).replace(' ', '') == 'std::option::Option<&[u8]>'
+        rs = roots_of(b, Place({'l': 0, 'p': []}), suffix0=((0, '0', 'Some'),) if opt_ret else ())
+        if opt_ret:
+            rs = [r for r in rs if not (r[0] == 'call' and r[1].callee and r[1].callee.path == 'std::ops::FromResidual::from_residual')]
+        return rs
+    cands = {}
     for b in prog.bodies.values():
         if is_derive(b) or not (b.file.endswith('fasta.rs') or b.file.endswith('fastq.rs')):
             continue
         opt_ret = re.sub(r"'\w+ ", '', b.local_tys[0]).replace(' ', '') == 'std::option::Option<&[u8]>'
         if not is_u8_slice_ref(b.local_tys[0]) and not opt_ret:
             continue
+        cands[b.path] = (b, ret_roots(b))
+    good = GOOD_SITES
+    good.clear()
+    changed = True
+    while changed:
+        changed = False
+        for pth, (b, rs) in cands.items():
+            if pth in good or not rs:
+                continue
+            if all(r[0] == 'const' or (r[0] == 'call' and not r[-1] and (is_trim_call(r[1]) or (prog.local_callee_body(r[1].callee) is not None and prog.local_callee_body(r[1].callee).path in good))) for r in rs):
+                good.add(pth)
+                changed = True
+    line_sites = []
+    for pth, (b, rs) in sorted(cands.items()):
         slices = [(x, t) for x, t in b.calls() if t.callee and t.callee.path in SLICE_INDEX and 'Range' in ' '.join(t.callee.targs + [b.local_tys[t.args[1].place.local] if not t.args[1].is_const else ''])]
         if not slices:
             continue
         line_sites.append(b)
-        rs = roots_of(b, Place({'l': 0, 'p': []}), suffix0=((0, '0', 'Some'),) if opt_ret else ())
-        if opt_ret:
-            # payload of every Some(..) that is returned (the None of `?` has no payload)
-            rs = [r for r in rs if not (r[0] == 'call' and r[1].callee and r[1].callee.path == 'std::ops::FromResidual::from_residual')]
-        ok = bool(rs) and all((r[0] == 'call' and is_trim_call(r[1]) and not r[-1]) or r[0] == 'const' for r in rs)
-        R.add('TRIM-1', b, 'line-site', ok, site(b, b.span['lo']),
-              'returned slice <- %s' % [(r[1].callee.target_path() if r[0] == 'call' else r[0]) for r in rs])
+        R.add('TRIM-1', b, 'line-site', pth in good, site(b, b.span['lo']),
+              'returned slice <- %s' % [(r[1].callee.target_path() if r[0] == 'call' else r[0]) for r in rs], undecided=trimmer is None)
     site_paths = set(b.path for b in line_sites)
-    # accessors of the borrowed records delegate to verified sites
+    # accessors of the borrowed records hand out trimmed lines (directly or through helpers)
     for b in prog.bodies.values():
         m = re.match(r'<(fasta|fastq)::RefRecord as (fasta|fastq)::Record>::(head|seq|qual)$', b.key)
         if not m or b.path in site_paths:
             continue
-        rs = roots_of(b, Place({'l': 0, 'p': []}))
-        ok = bool(rs) and all(r[0] == 'const' or (r[0] == 'call' and (is_trim_call(r[1]) or
-                              (prog.local_callee_body(r[1].callee) is not None and prog.local_callee_body(r[1].callee).path in site_paths)))
-                              for r in rs)
-        R.add('TRIM-1', b, 'accessor-delegates', ok, site(b, b.span['lo']),
-              'returned slice <- %s' % [(r[1].callee.target_path() if r[0] == 'call' else r[0]) for r in rs])
+        rs = cands.get(b.path, (b, []))[1]
+        R.add('TRIM-1', b, 'accessor-delegates', b.path in good, site(b, b.span['lo']),
+              'returned slice <- %s' % [(r[1].callee.target_path() if r[0] == 'call' else r[0]) for r in rs], undecided=trimmer is None)
     R.floor('TRIM-1', 11)
 
     # ---------------------------------------------------------------- TRIM-2
@@ -244,6 +291,13 @@ def copy_origin(body, op, du):
     return ('place', op.place.key())
 
 
+def origin_key(fo):
+    """comparable identity of a copy origin: a value read from a (projected) place is identified by that place"""
+    if fo[0] == 'def' and getattr(fo[2], 'k', None) == 'assign' and fo[2].rv.k == 'use' and not fo[2].rv.ops[0].is_const:
+        return ('place', fo[2].rv.ops[0].place.key())
+    return fo[:2]
+
+
 def controlling_switches(body, blk):
     """all switch blocks the block is (transitively) control dependent on"""
     cd = body.cfg.control_deps()
@@ -329,7 +383,7 @@ def epos_rules(prog, R, trimmer):
                     for a in sw:
                         t = b.blocks[a].term
                         # `match byte { MARKER => .., _ => .. }`: a switch on the byte itself with the marker among its arms
-                        if not t.discr.is_const and copy_origin(b, t.discr, du)[:2] == fo[:2] and MARKER[v] in [tv for tv, _ in t.targets]:
+                        if not t.discr.is_const and origin_key(copy_origin(b, t.discr, du)) == origin_key(fo) and MARKER[v] in [tv for tv, _ in t.targets]:
                             okc = True
                         for r in roots_of(b, t.discr, du):
                             if r[0] == 'bin' and r[1].rv.j['op'] in ('Ne', 'Eq'):
@@ -362,9 +416,7 @@ def epos_rules(prog, R, trimmer):
                                 cb = prog.local_callee_body(inner[0][1].callee)
                                 if cb is not None and cb.key.endswith('::' + nm):
                                     # that accessor is a trimmed line site
-                                    rr = roots_of(cb, Place({'l': 0, 'p': []}))
-                                    trimmed = bool(rr) and all(q[0] == 'call' and trimmer is not None and prog.local_callee_body(q[1].callee) is trimmer for q in rr)
-                                    okn = trimmed
+                                    okn = cb.path in GOOD_SITES
                                     lens[nm] = lt
                         R.add('EPOS-3', b, 'reported-%s' % nm, okn, site(b, s.line), 'field %s <- len(trimmed accessor `%s`): %s' % (nm, nm, okn))
                     decided = False
@@ -407,7 +459,7 @@ def epos_rules(prog, R, trimmer):
                 if s.k == 'assign' and s.rv.k == 'agg' and s.rv.j.get('adt', '').endswith('ErrorPosition'):
                     agg = (blk.idx, s)
         if agg is None:
-            R.add('UNIT-4', f, 'shape', False, site(f, f.span['lo']), 'no ErrorPosition aggregate')
+            R.undecided('UNIT-4', f, 'shape', site(f, f.span['lo']), 'no ErrorPosition aggregate')
             continue
         ab, s = agg
         fields = dict(zip(s.rv.j['fields'], s.rv.ops))
@@ -479,6 +531,9 @@ def epos_rules(prog, R, trimmer):
                     okc = False
                     for a in controlling_switches(b, blk.idx):
                         t = b.blocks[a].term
+                        # `match .. { Some((line, start, b'>')) => .., Some((line, _, found)) => .. }`: a switch on the byte itself
+                        if not t.discr.is_const and origin_key(copy_origin(b, t.discr, du)) == origin_key(fo) and 62 in [tv for tv, _ in t.targets]:
+                            okc = True
                         for r in roots_of(b, t.discr, du):
                             if r[0] == 'bin' and r[1].rv.j['op'] in ('Ne', 'Eq'):
                                 ops = r[1].rv.ops
@@ -561,7 +616,7 @@ def split_rules(prog, R):
                 continue
             sp = [t for _, t in b.calls() if t.callee and t.callee.name in ('split', 'splitn') and ('slice' in t.callee.path or 'str' in t.callee.path)]
             if len(sp) != 1:
-                R.add('SPLIT-1', b, 'shape', False, site(b, b.span['lo']), 'expected exactly one split/splitn call [UNDECIDED]')
+                R.undecided('SPLIT-1', b, 'shape', site(b, b.span['lo']), 'expected exactly one split/splitn call [UNDECIDED]')
                 continue
             t = sp[0]
             # receiver is the header
@@ -658,7 +713,8 @@ def view_rules(prog, R, trimmer):
                     return [tuple(q[1] for q in r[-1]) for r in rs if r[0] == 'arg' and r[1] == 1]
             return None
         f1, f2 = inner(nx, 'next'), inner(nb, 'next_back')
-        R.add('VIEW-1', nx, 'same-inner-iterator', f1 is not None and f1 == f2 and bool(f1), site(nx, nx.span['lo']), 'next() steps %s, next_back() steps %s' % (f1, f2))
+        R.add('VIEW-1', nx, 'same-inner-iterator', f1 is not None and f1 == f2 and bool(f1), site(nx, nx.span['lo']), 'next() steps %s, next_back() steps %s' % (f1, f2),
+              undecided=f1 is None and f2 is None)   # no wrapped std iterator at all (e.g. a cursor over a slice): nothing to compare
         def mapping_sig(fn):
             """signature of how an item is turned into a line: for every slicing of the data in the
             function (or its closures): (bounds arithmetic as op/const multiset, trimmed?)"""
@@ -676,12 +732,17 @@ def view_rules(prog, R, trimmer):
                                         if d[0] == 'bin':
                                             arith.append((d[1].rv.j['op'], tuple(sorted(str(z.const_int()) for z in d[1].rv.ops if z.const_int() is not None))))
                                 arith.append(('range', r[1].rv.j.get('adt', '').rsplit('::', 1)[-1]))
-                        trimmed = any(k == 'call' and tt.callee and prog.local_callee_body(tt.callee) is trimmer for (k, tt, i, via) in forward_sinks(body, t.dest.local)) if trimmer is not None else False
+                        sinks = list(forward_sinks(body, t.dest.local))
+                        trimmed = any(k == 'call' and tt.callee and prog.local_callee_body(tt.callee) is trimmer for (k, tt, i, via) in sinks) if trimmer is not None else False
+                        # only the slicing that produces the line (it is trimmed or returned); re-slicing of a cursor over the offsets is not the mapping
+                        if not trimmed and not any(k == 'ret' for (k, tt, i, via) in sinks):
+                            continue
                         sig.append((tuple(sorted(arith)), trimmed))
             return sorted(sig)
         s1, s2 = mapping_sig(nx), mapping_sig(nb)
         ok = bool(s1) and s1 == s2
-        R.add('VIEW-1', nx, 'same-mapping', ok, site(nx, nx.span['lo']), 'line computation of next(): %s ; of next_back(): %s' % (s1, s2))
+        R.add('VIEW-1', nx, 'same-mapping', ok, site(nx, nx.span['lo']), 'line computation of next(): %s ; of next_back(): %s' % (s1, s2),
+              undecided=not s1 and not s2)   # the line is cut in a helper shared by both: nothing to compare here
     # VIEW-2
     try:
         fs = prog.get('fasta::RefRecord::full_seq')
@@ -749,7 +810,16 @@ def view_rules(prog, R, trimmer):
                         it = roots_of(os_, r[1].args[0], through_calls=lambda c: 0 if c and c.path in IDENTITY_CALLS else None)
                         if any(q[0] == 'call' and q[1] is sl[0] for q in it):
                             ok = True
-        R.add('VIEW-3', os_, 'owned-seq-concatenates-lines', ok, site(os_, os_.span['lo']), 'owned_seq extends a Vec with every item of seq_lines(): %s' % ok)
+        if not ok and sl:
+            # other idioms (fold / for_each with a closure, concat of a collected Vec ...): the result derives from the
+            # line iterator and from no other view of the buffer
+            deps = data_deps(os_, Place({'l': 0, 'p': []}))
+            uses_lines = any(d[0] == 'call' and d[1] is sl[0] for d in deps)
+            other_views = [d[1].callee.name for d in deps if d[0] == 'call' and d[1].callee and d[1].callee.name in ('seq', 'head', 'get_buf', 'buffer') ]
+            R.add('VIEW-3', os_, 'owned-seq-concatenates-lines', uses_lines and not other_views, site(os_, os_.span['lo']),
+                  'owned_seq is built from seq_lines() (idiom not analysed further): %s; other views of the buffer used: %s' % (uses_lines, other_views), undecided=uses_lines and not other_views)
+        else:
+            R.add('VIEW-3', os_, 'owned-seq-concatenates-lines', ok, site(os_, os_.span['lo']), 'owned_seq extends a Vec with every item of seq_lines(): %s' % ok)
     except KeyError:
         R.anchor_missing('VIEW-3', 'fasta::RefRecord::owned_seq')
     R.floor('VIEW-3', 6)
@@ -796,6 +866,18 @@ def iter_rules(prog, R):
                     on_inner = bool(rr) and all(q[0] == 'arg' and q[1] == 1 and q[-1] and q[-1][0][1] in inner_fields for q in rr)
                     if on_inner or 'iter' in t.callee.path.lower():
                         steps.append((t, on_inner))
+            # adaptors that may consume several items of the wrapped iterator per call (seeds C20-b / C20-r2b: `.find(..)`):
+            # the reported length then counts items that are never delivered
+            multi = []
+            for x, t in b.calls():
+                if t.callee and t.callee.name in ('find', 'rfind', 'find_map', 'filter', 'filter_map', 'skip_while', 'take_while', 'position', 'rposition', 'skip', 'step_by') and t.args and 'iter' in t.callee.path.lower():
+                    dd = data_deps(b, t.args[0])
+                    if any(d[0] == 'arg' and d[1] == 1 and d[-1] and d[-1][0][1] in inner_fields for d in dd):
+                        multi.append(t.callee.name)
+            if multi:
+                R.add('ITER-2', b, 'delegates-%s' % meth, False, site(b, b.span['lo']),
+                      '%s() runs %s over the wrapped iterator: one call may consume several of its items, which size_hint()/len() still count' % (meth, '/'.join(sorted(set(multi)))))
+                continue
             one = len(steps) == 1 and steps[0][1] and steps[0][0].callee.name == meth
             feeds = False
             if one:
@@ -809,7 +891,9 @@ def iter_rules(prog, R):
                         if k == 'ret':
                             feeds = True
             R.add('ITER-2', b, 'delegates-%s' % meth, one and feeds, site(b, b.span['lo']),
-                  '%s() takes exactly one %s() step of the wrapped iterator and returns an item derived from it: %s' % (meth, meth, one and feeds))
+                  '%s() takes exactly one %s() step of the wrapped iterator and returns an item derived from it: %s' % (meth, meth, one and feeds) if steps else
+                  '%s() does not step a wrapped std iterator directly (helper function, cursor over a slice, reader-backed through a helper): not judged by this rule (FSM-D / VIEW-1 cover it)' % meth,
+                  undecided=not steps)
         # ITER-1: overridden size_hint / len
         for tr, meth in (('std::iter::Iterator', 'size_hint'), ('std::iter::ExactSizeIterator', 'len')):
             key = '<%s as %s>::%s' % (self_ty, tr, meth)
@@ -819,6 +903,7 @@ def iter_rules(prog, R):
             b = bs[0]
             srcs = length_sources(prog, b, 0)
             bad = []
+            unknown = []
             for (kind, what) in srcs:
                 if kind == 'inner':
                     if what not in inner_fields:
@@ -838,9 +923,10 @@ def iter_rules(prog, R):
                     if stale:
                         bad.append('field `%s` is not updated by %s()' % (what, '(), '.join(stale)))
                 else:
-                    bad.append('%s %s' % (kind, what))
+                    unknown.append('%s %s' % (kind, what))
             R.add('ITER-1', b, 'length-is-live', not bad and bool(srcs), site(b, b.span['lo']),
-                  '%s() is computed from %s%s' % (meth, srcs, (': ' + '; '.join(bad) + ' (stale after the first step)') if bad else ''))
+                  '%s() is computed from %s%s' % (meth, srcs, (': ' + '; '.join(bad) + ' (stale after the first step)') if bad else ''),
+                  undecided=not bad and (bool(unknown) or not srcs))
     R.floor('ITER-2', 14)
     R.floor('ITER-1', 2)
 
